@@ -37,11 +37,14 @@ Inductive case :=
    AdsPushAll/StartPush with that context.  Observed at the end: the connection's LastPushContext
    (0 while unset) and the version of the push request queued for it (the queue merges requests
    and keeps the newest context; None = no entry) *)
-| Enq (id : N) (g : N) (ls : list lbl) (lpc : N) (q : option N).
+| Enq (id : N) (g : N) (ls : list lbl) (lpc : N) (q : option N)
+      (* after the queued push was handled by the real pushConnection(Delta) (initialised connections only,
+         no watch yet): LastPushContext; and the version a CDS (re-)subscription is then answered from (0 = not sent) *)
+      (hlpc ver : N).
 
 Definition case_id c :=
   match c with
-  | Sess id _ _ _ _ => id | Step id => id | E2E id _ _ _ _ _ _ _ _ => id | Order id _ _ => id | Race id _ _ _ => id | Enq id _ _ _ _ => id
+  | Sess id _ _ _ _ => id | Step id => id | E2E id _ _ _ _ _ _ _ _ => id | Order id _ _ => id | Race id _ _ _ => id | Enq id _ _ _ _ _ _ => id
   end.
 
 (* ------------------------------------------------------------------ helpers *)
@@ -228,9 +231,11 @@ Definition model_fail (c : case) : option N :=
     (* the model allows both outcomes (C05_no_snapshot_missed_refuted / _partial); a missed push
        leaves the connection on an older context than the global one *)
     if negb missed || (lpc <? global) then None else Some id
-  | Enq id g ls lpc q =>
+  | Enq id g ls lpc q hlpc ver =>
     let s := yrun (sys0 g) ls in
-    if (lpc =? y_lpc s) &&
+    if (hlpc =? y_lpc (handle s)) &&
+       (ver =? (if Nat.eqb (y_pc s) 3 then y_lpc (handle s) else 0)) &&
+       (lpc =? y_lpc s) &&
        match q, y_queue s with
        | None, [] => true
        | Some v, _ :: _ => v =? last (y_queue s) 0
@@ -258,12 +263,15 @@ Definition prop_fail (c : case) : option N :=
        read before it is registered; a push commits its context before it enumerates the clients *)
     if before 1 2 conn && before 2 3 conn && before 4 5 push then None else Some id
   | Race id _ _ missed => if missed then Some id else None
-  | Enq id g ls _ q =>
+  | Enq id g ls _ q _ ver =>
     (* every context committed after addCon whose Push has enumerated the clients is in the
        connection's queue (or superseded there by a newer one), initialised or not *)
     let s := yrun (sys0 g) ls in
     let held := match q with Some v => v | None => 0 end in
-    if forallb (fun v => match y_pending s with Some p => (p =? v) | None => false end || (v <=? held)) (y_post s)
+    if forallb (fun v => match y_pending s with Some p => (p =? v) | None => false end || (v <=? held)) (y_post s) &&
+       (* ... and once that push has been handled, the next subscription is answered from it (or newer) *)
+       (negb (Nat.eqb (y_pc s) 3) ||
+        forallb (fun v => match y_pending s with Some p => (p =? v) | None => false end || (v <=? ver)) (y_post s))
     then None else Some id
   end.
 
